@@ -1,7 +1,7 @@
 (* C04 — Aggregation results do not depend on merge order or grouping.
    Only the property theorems (closed by [exact]) and non-vacuity examples. *)
 From Coq Require Import ZArith QArith List Bool Permutation MSets.MSetPositive.
-From SH Require Import Gen.AggConsts Agg.Model Agg.ProofsValue Agg.ProofsUnique Agg.ProofsTable.
+From SH Require Import Gen.AggConsts Agg.Model Agg.ProofsValue Agg.ProofsUnique Agg.ProofsTable Agg.ProofsTable2 Agg.ProofsTable3.
 Import ListNotations.
 
 (* "Merging the same multiset of contributions in any order and any grouping yields the same count, min, max
@@ -138,22 +138,42 @@ Proof. exact insert_impl_absR. Qed.
 Theorem C04_table_abs_sound : forall s, winv s -> absR s (t_abs s).
 Proof. exact absR_t_abs. Qed.
 
+(* rehash (both loops, incl. the wrap-around second one) at the table level: keeps exactly the stored hashes
+   divisible by 2^d and re-establishes the table invariant except (not proved here) the probing invariant. *)
+Theorem C04_table_rehash_keeps_set :
+  forall s d, winv s -> t_skip s <= d ->
+  let s' := t_rehash (t_with_skip s d) in
+  winv s' /\ t_sd s' = t_sd s /\ t_skip s' = d /\ t_zero s' = t_zero s /\
+  (forall y, holds s' y <-> holds s y /\ good d y = true).
+Proof. exact rehash_weak. Qed.
+
+(* resize to sizeDegree+1 (incl. the "|| buf[i] != 0" tail and the inner probe): keeps the set of stored hashes,
+   itemsCount and the table invariant except (not proved here) the probing invariant. *)
+Theorem C04_table_resize_keeps_set :
+  forall s, winv s -> t_sd s + 1 <= uniques_max_size_degree ->
+  let s' := t_resize s (t_sd s + 1) in
+  winv s' /\ t_sd s' = t_sd s + 1 /\ t_skip s' = t_skip s /\ t_zero s' = t_zero s /\ t_cnt s' = t_cnt s /\
+  (forall y, holds s' y <-> holds s y).
+Proof. exact resize_weak. Qed.
+
 (* "any order and any grouping ... same unique-value estimate", for the REAL table operations: any two merge trees
    of the table-level Merge (current code) over permutations of the same tables report the same skip degree,
    itemsCount, zero flag, stored hashes and Size(true), and the invariant is preserved.
-   PARTIAL: modulo [rehash_ok] and [resize_ok] - that the two in-place reorganisation loops (rehash with its
-   wrap-around second loop; resize with its "|| buf[i] != 0" tail) keep the set of stored hashes (filtered by the new
-   skip degree for rehash) and re-establish the invariant incl. the probing invariant. Everything else (insertImpl,
-   shrinkIfNeed's case analysis, the thinning loop, Merge's three phases, table order, counting, the lift through
-   C04_unique_merge_tree_perm) is proved. The two premises are validated on every replayed case (the model's table is
-   compared cell by cell with the Go table, and the Go table is checked for the invariant after every operation). *)
+   PARTIAL: two premises remain, [rehash_probing] and [resize_probing]: that rehash resp. resize RE-ESTABLISH THE
+   PROBING INVARIANT (every cell between the home cell of a stored hash and its position is occupied). Everything
+   else about the two loops (termination, set of stored hashes, no duplicates, itemsCount, divisibility, bounds) is
+   proved above; insertImpl, shrinkIfNeed, thinning, Merge, table order, counting and the lift are proved. The
+   restoration argument needs the load-factor bound (occupied <= maxFill+1) to exclude chains that wrap around the
+   whole table and a three-region loop invariant; it was not completed. Both premises are validated on every
+   replayed case (cell-by-cell table digest against the Go table; Go-side oracle table_probing_invariant after every
+   operation; seeded damage of exactly this kind, C03-2, is caught with a concrete replay). *)
 Theorem C04_unique_table_merge_tree_perm_partial :
-  rehash_ok -> resize_ok -> forall t1 t2,
+  rehash_probing -> resize_probing -> forall t1 t2,
   Forall tinv (leaves t1) -> Permutation (leaves t1) (leaves t2) ->
   t_skip (t_eval t1) = t_skip (t_eval t2) /\ t_cnt (t_eval t1) = t_cnt (t_eval t2) /\
   t_zero (t_eval t1) = t_zero (t_eval t2) /\ (forall y, holds (t_eval t1) y <-> holds (t_eval t2) y) /\
   t_size_as_is (t_eval t1) = t_size_as_is (t_eval t2) /\ tinv (t_eval t1) /\ tinv (t_eval t2).
-Proof. exact table_merge_tree_perm. Qed.
+Proof. exact table_merge_tree_perm_3. Qed.
 
 (* non-vacuity of the table theorems: the table after Reset satisfies the invariant *)
 Example C04_nonvacuous_table : tinv (t_reset tsk_nil) /\ t_size_as_is (t_eval (Node (Leaf (t_reset tsk_nil)) (Leaf (t_insert (t_reset tsk_nil) 7)))) = 1.
